@@ -135,8 +135,12 @@ def _run_items(items, title):
             continue
         for prop, pr in r['props'].items():
             if r['negative_control'] == 'documented':
-                status = ('caught' if pr['caught'] else
+                # a documented seed leaves the property intact inside the claimed domain: a report
+                # on it is a suspected false alarm of the check and fails the self-test
+                status = ('REPORTED-THOUGH-DOCUMENTED-AS-ADMISSIBLE' if pr['caught'] else
                           'not-caught(documented: outside the statement)')
+                if pr['caught']:
+                    missed += 1
             elif r['negative_control']:
                 status = 'quiet(ok)' if pr['exit'] == 0 else 'FALSE-ALARM(exit=%s)' % pr['exit']
                 if pr['exit'] != 0:
